@@ -402,6 +402,92 @@ theorem sampler_subset (indptr indices : List Nat) (nRow : Nat) (choice : List (
 /-- non-vacuity: degree 3, sample size 2, positions `[2, 0]` -/
 example : choiceOk 3 2 [2, 0] = true := by decide
 
+/-- **input format.** The layer depends on the adjacency and on the features only through their shape and their
+entries: two containers with the same denotation (CSR with un-summed duplicates, unsorted CSR, CSC, dense, …) give
+the same output, or the same error. -/
+theorem forward_depends_on_entries (cfg : LayerCfg) (A A' X X' W : Mat ℝ) (b : Option (List ℝ))
+    (hA : SameEntries A A') (hX : SameEntries X X') :
+    forward cfg A X W b = forward cfg A' X' W b := by
+  unfold forward
+  simp only [bind, Except.bind]
+  rcases normalize_congr cfg.norm hA with ⟨e, h1, h2⟩ | ⟨M, M', h1, h2, hM⟩
+  · rw [h1, h2]
+  · rw [h1, h2]
+    simp only []
+    have h2' : SameEntries (if cfg.selfEmb then addSelfLoops M else M) (if cfg.selfEmb then addSelfLoops M' else M') := by
+      cases cfg.selfEmb with
+      | false => simpa using hM
+      | true =>
+        simp only [if_true]
+        rw [addSelfLoops_congr hM]
+        exact SameEntries.refl _
+    rw [matmul_congr h2' hX]
+
+/-- non-vacuity: a 1 × 1 matrix stored as one entry `2` and the same matrix stored as two rows-lists of different
+representation (`[[2]]` with and without trailing padding) have the same entries -/
+example : SameEntries (⟨1, 1, [[2]]⟩ : Mat ℝ) ⟨1, 1, [[2], []]⟩ := by
+  refine ⟨rfl, rfl, ?_⟩
+  intro i j
+  match i, j with
+  | 0, 0 => rfl
+  | 0, j+1 => rfl
+  | 1, j => cases j <;> rfl
+  | i+2, j => rfl
+
+/-- **left normalisation is the random-walk normalisation**: every row of `N(A)` (without self-embedding) with a
+non-zero weight sums to 1, a row of weight 0 is 0 (pseudo-inverse) -/
+theorem left_normalisation_rows (n m : Nat) (a : Nat → Nat → ℝ) (i : Nat) (hi : i < n) :
+    ∑ j ∈ range m, Spec.normEntry .left false (mk' n m a) i j =
+      if ∑ j ∈ range m, a i j = 0 then 0 else 1 := by
+  have h : ∀ j ∈ range m, Spec.normEntry .left false (mk' n m a) i j = pinv (∑ j ∈ range m, a i j) * a i j := by
+    intro j hj
+    simp only [Spec.normEntry, Bool.false_and, Bool.false_eq_true, if_false]
+    rw [weight_mk' n m a i hi, get_mk'_of_lt a hi (mem_range.mp hj)]
+  rw [Finset.sum_congr rfl h, ← Finset.mul_sum]
+  by_cases hw : ∑ j ∈ range m, a i j = 0
+  · rw [if_pos hw, hw, mul_zero]
+  · rw [if_neg hw, pinv_mul_self _ hw]
+
+/-- **symmetric normalisation keeps symmetry**: for an undirected graph, `N(A)` under `both` is symmetric
+(with or without the self-embedding) -/
+theorem both_normalisation_symmetric (n : Nat) (a : Nat → Nat → ℝ) (hsym : ∀ i j, a i j = a j i) (se : Bool)
+    (i j : Nat) (hi : i < n) (hj : j < n) :
+    Spec.normEntry .both se (mk' n n a) i j = Spec.normEntry .both se (mk' n n a) j i := by
+  have hb : (i == j) = (j == i) := by
+    by_cases h : i = j
+    · subst h; rfl
+    · have h' : j ≠ i := fun e => h e.symm
+      simp [h, h']
+  simp only [Spec.normEntry]
+  rw [get_mk'_of_lt a hi hj, get_mk'_of_lt a hj hi, hsym i j, hb]
+  congr 1
+  all_goals ring
+
+/-- for an undirected graph the right normalisation is the transpose of the left one -/
+theorem right_is_left_transposed (n : Nat) (a : Nat → Nat → ℝ) (hsym : ∀ i j, a i j = a j i) (se : Bool)
+    (i j : Nat) (hi : i < n) (hj : j < n) :
+    Spec.normEntry .right se (mk' n n a) i j = Spec.normEntry .left se (mk' n n a) j i := by
+  have hb : (i == j) = (j == i) := by
+    by_cases h : i = j
+    · subst h; rfl
+    · have h' : j ≠ i := fun e => h e.symm
+      simp [h, h']
+  simp only [Spec.normEntry]
+  rw [get_mk'_of_lt a hi hj, get_mk'_of_lt a hj hi, hsym i j, hb]
+  congr 1
+  all_goals ring
+
+/-- non-vacuity of the shape hypotheses used above -/
+example : (2 : Nat) ≠ 3 ∧ (3 : Nat) ≠ 1 ∧ (∀ y ∈ ([2, 0] : List Nat), y < 3) ∧ (∀ y ∈ ([1, 0] : List Nat), y ≤ 1) := by
+  decide
+
+/-- non-vacuity of the clipping hypothesis of `bce_gradient_of_the_clipped_loss`: `σ(0) = 1/2` -/
+example : (eps15 : ℝ) < Real.sigmoid 0 ∧ Real.sigmoid 0 < 1 - eps15 := by
+  rw [Real.sigmoid_zero]
+  unfold eps15
+  simp only [num_frac]
+  constructor <;> norm_num
+
 /-! ### configuration: which layer a name, an activation, a loss and a normalisation select
 (`isSage` / `isConv`: 'sage' / 'conv' occurs in the lower-cased layer name) -/
 
